@@ -29,7 +29,7 @@ typedef struct BindField {
 
 typedef struct BindFunc {  /* every prototype found in the header */
     const char *name;
-    int kind;              /* 0 other, 1 init, 2 getfield, 3 setfield, 4 getter, 5 setter, 6 legacy */
+    int kind;              /* 0 other (hand-written driver), 1 init, 2 getfield, 3 setfield, 4 getter, 5 setter, 6 legacy, 7 not exercised by anything */
     int bound;             /* 1 if reachable through the tables above */
 } BindFunc;
 
